@@ -163,6 +163,8 @@ def obligations(tier):
         shapes += [[3, 1], [1, 3], [1, 1, 1], [2, 1, 1]]
     for nas in shapes:
         for nb in range(N + 1):
+            if not q and sum(nas) + nb >= 6:
+                continue        # 6+ symbolic coordinates (several thousand paths each) do not fit the thorough budget
             for model in ("2f", "skip", "lf"):
                 for batching in ("fiber", "oneshot"):
                     ps, pre = [], []
